@@ -14,9 +14,15 @@
 (*     only: verdict "PROP:<clause>" = the real execution violates C15;      *)
 (*   - the model's state, its post-crash log / memtable and its reads are    *)
 (*     compared with the observed ones: "MODEL:<field>" = drift.             *)
-(* Output: one line <<"K", id, k, prop, model, key>> per position that is    *)
-(* not ("ok","ok"), and exactly one summary line <<"V", id, verdict, k>>     *)
-(* per trace (ACCEPT | first PROP:* | first MODEL:*).                        *)
+(* Output: one line <<"K", id, k, prop, model, key, self>> per position that *)
+(* is not ("ok","ok") (self = the contract evaluated on the MODEL's own      *)
+(* data at that position, used to attribute a failure to a deviation), and   *)
+(* exactly one summary line <<"V", id, verdict, k>>                          *)
+(* A trace with selfscan = 1 carries no observations: the model alone is run *)
+(* along the scripts and its own contract verdict is taken at EVERY position *)
+(* (counterfactual runs used to attribute a failure to a deviation); output  *)
+(* <<"S", id, number of failing positions, first one, its clause>>.          *)
+(* per trace: ACCEPT, or the first PROP verdict, or the first MODEL one.     *)
 EXTENDS Wal, Json, IOUtils
 
 Traces == JsonDeserialize(IOEnv.TRACE_FILE)
@@ -88,17 +94,41 @@ ObsOps(T, n) ==
 PropVerdict(T, O) == Judge(ObsOps(T, O.nops), O.dur, 1..T.cfg.nk, O.r1, O.r2)
 PropKey(T, O) == BadKey(ObsOps(T, O.nops), O.dur, 1..T.cfg.nk, O.r1, O.r2)
 
+\* the contract on the model's own run (same scripts, crash at the same position)
+SelfVerdict(mm) ==
+    LET p1 == PostCrash1(mm)
+        p2 == RecoverM(p1)
+    IN Judge(mm.ops, mm.dur, KeysOf(mm), p1.r1, p2.r2)
+
 Note(T, k, pv, mv, key) ==
-    /\ IF pv = "ok" /\ mv = "ok" THEN TRUE ELSE PrintT(<<"K", T.id, k, pv, mv, key>>)
+    /\ IF pv = "ok" /\ mv = "ok" THEN TRUE
+       ELSE PrintT(<<"K", T.id, k, pv, mv, key, IF mv = "no_such_position" THEN "none" ELSE SelfVerdict(m)>>)
     /\ acc' = [p |-> IF acc.p = "ok" THEN pv ELSE acc.p, pk |-> IF acc.p = "ok" THEN k ELSE acc.pk,
                mo |-> IF acc.mo = "ok" THEN mv ELSE acc.mo, mk |-> IF acc.mo = "ok" THEN k ELSE acc.mk]
 
 Load(i) == m' = InitM(CfgOf(Traces[i])) /\ script' = Traces[i].script
 
+Finish(T, v) ==
+    /\ PrintT(<<"V", T.id, v[1], v[2]>>)
+    /\ ti' = ti + 1 /\ pi' = 1 /\ acc' = Acc0
+    /\ IF ti < NT THEN Load(ti + 1) ELSE UNCHANGED <<m, script>>
+
+\* counterfactual run: the model's own verdict at every position of its own run
+SelfScan(T) ==
+    LET sv == SelfVerdict(m)
+        a1 == IF sv = "ok" THEN acc
+              ELSE [acc EXCEPT !.p = IF acc.p = "ok" THEN sv ELSE @, !.pk = IF acc.p = "ok" THEN m.ev ELSE @,
+                               !.mk = @ + 1]
+    IN IF m.q # <<>>
+       THEN m' = TStep(m, script) /\ acc' = a1 /\ UNCHANGED <<script, ti, pi>>
+       ELSE /\ PrintT(<<"S", T.id, a1.mk, a1.pk, a1.p>>)
+            /\ Finish(T, <<"ACCEPT", 0>>)
+
 TNext ==
     /\ ti <= NT
     /\ LET T == Traces[ti] IN
-       IF pi <= Len(T.pos)
+       IF T.selfscan = 1 THEN SelfScan(T)
+       ELSE IF pi <= Len(T.pos)
        THEN LET k == T.pos[pi]
                 O == T.obs[pi]
             IN IF k = m.ev
@@ -113,9 +143,7 @@ TNext ==
                 v == IF acc.p # "ok" THEN <<"PROP:" \o acc.p, acc.pk>>
                      ELSE IF more # "ok" THEN <<"MODEL:" \o more, acc.mk>>
                      ELSE <<"ACCEPT", 0>>
-            IN /\ PrintT(<<"V", T.id, v[1], v[2]>>)
-               /\ ti' = ti + 1 /\ pi' = 1 /\ acc' = Acc0
-               /\ IF ti < NT THEN Load(ti + 1) ELSE UNCHANGED <<m, script>>
+            IN Finish(T, v)
 
 TSpec == TInit /\ [][TNext]_tvars
 ===========================================================================
